@@ -217,7 +217,7 @@ def run_check(pid: str, fn: Any, tier: str, level: str = "other") -> int:
     for i in sorted(matched):
         k = known[i]
         print(f"KNOWN-FINDING: property={pid} {k.get('id', '')} [{k['rule']}] {k['what']}")
-    stale = [k for i, k in enumerate(known) if i not in matched]
+    stale = [k for i, k in enumerate(known) if i not in matched and not (k.get("tier") == "thorough" and tier != "thorough")]
     for k in stale:
         print(f"note: listed finding {k.get('id', '')} [{k['rule']}] {k['key']} is no longer reported on this tree")
     rc = 0
